@@ -874,6 +874,33 @@ class SymArray(np.ndarray):
         return self.view(np.ndarray).tolist()
 
 
+def trunc(v):
+    """C cast double -> integer (truncation toward zero) of a symbolic real"""
+    if isinstance(v, SB):
+        return v
+    if isinstance(v, SR):
+        t = v.t
+        return SR(z3.If(t >= 0, z3.ToReal(z3.ToInt(t)), -z3.ToReal(z3.ToInt(-t))))
+    if isinstance(v, np.ndarray):
+        if v.dtype == object:
+            out = np.empty(v.shape, dtype=object)
+            for i in np.ndindex(v.shape):
+                out[i] = trunc(v.view(np.ndarray)[i])
+            return out
+        return v.astype(np.int64)
+    if isinstance(v, (list, tuple)):
+        return trunc(_obj_array(v)) if is_sym(v) else np.asarray(v).astype(np.int64)
+    return int(v)
+
+
+class IntSymArray(SymArray):
+    """stand-in for an integer-dtype ndarray that receives symbolic values (np.empty_like(<int array>)): stores
+    truncate toward zero exactly as numpy's double -> int64 assignment does"""
+
+    def __setitem__(self, key, value):
+        SymArray.__setitem__(self, key, trunc(value))
+
+
 def sarr(x, dtype=None):
     """Make a SymArray from nested data (keeps dtype numeric when everything is concrete)."""
     if isinstance(x, SymArray) and dtype is None:
